@@ -248,8 +248,9 @@ def reducerStep (E : Elem β) (inplace : Bool) (fold : Nat → Obs β → Option
 /-! ## Accumulator (`neural/modeling.py:13-60`): pending parts are two `ParameterList`s, so their
 state-dict keys are `_pos.0 … _pos.(k-1)`, `_neg.0 …` — the KEY SET is the number of pending parts.
 The reduced values are cached (`functools.cache`); the cache is cleared when a part is appended or
-the parts are deleted — and by the post-load hook (`modeling.py`, fix for D32), since
-`load_state_dict` copies into the parts in place. -/
+the parts are deleted — and by the load post-hook registered in the constructor (D32), since
+`load_state_dict` copies into the parts in place.  `clearCacheOnLoad = true` is the code;
+`false` is the code before that fix (kept to state what the hook is needed for). -/
 
 structure AccDict (β : Type) where
   pos : List (Tens β)
@@ -307,7 +308,9 @@ def accStep (red : List (Tens β) → Option (Tens β)) (a : Acc β) :
 
 /-! ## MaxRateClassifier (`learn/classifiers/simple.py`): parameter `rates_` is saved;
 `assignments_ / occurrences_ / proportions_` are non-persistent buffers that the `rates` setter
-derives and that the load post-hook (`simple.py:84-89`: `module.rates = module.rates`) recomputes. -/
+derives and that the load post-hook (`simple.py:84-89`: `module.rates = module.rates`) recomputes;
+the constructor ends with the same assignment (D31), so `derived = derive rates` (`Inv`) holds
+from construction on.  `postHook = true` is the code; `false` is the mutant without the hook. -/
 
 structure Clf (β Δ : Type) where
   rates : Tens β
